@@ -98,6 +98,29 @@ func capacityDoc(t *simkit.Tape) DocSpec {
 // node-sets whose first node has spare capacity in its lists.
 var CapacityExprs = []string{"/*/*/@*", "/*/*[position() < 3]/@*", "/*/*[position() != 2]/@*", "/*/*[position() != 3]/@*", "/*/*[1]/@* | /*/*[2]/@*", "/*/*[@*]/@*", "/*/*/node()", "/*/*[position() < 3]/*", "/*/*[position() != 2]/node()"}
 
+// GenParseSpec draws a document for a parse operation that runs next to other
+// parse operations: mostly XML whose text nodes are made of several pieces
+// (text next to CDATA sections and references), so that the reader's
+// multi-step paths are inside their loops when another task arrives.
+func GenParseSpec(t *simkit.Tape) DocSpec {
+	if t.Bool(1, 4) {
+		return GenDocSpec(t)
+	}
+	cfg := model.DrawXMLConfig(t)
+	cfg.Encoding = ""
+	cfg.Entities = false
+	cfg.CDATA = true
+	cfg.Refs = true
+	if cfg.MaxNodes < 20 {
+		cfg.MaxNodes = 20
+	}
+	if cfg.MaxDepth < 3 {
+		cfg.MaxDepth = 3
+	}
+	doc := model.GenXML(t, cfg)
+	return DocSpec{Kind: "xml", Bytes: model.SerialiseXML(t, cfg, doc).Bytes}
+}
+
 // GenDocSpec draws a document of one of the three kinds.
 func GenDocSpec(t *simkit.Tape) DocSpec {
 	if t.Bool(1, 7) {
@@ -261,7 +284,10 @@ type Norm struct {
 	Err   bool
 	Panic bool // "xpath query panic" inside the error text
 	Val   Value
-	Text  string // error text (never compared)
+	// Rendered is Result.String() of a number, boolean or string result: what a
+	// caller who prints the result sees (compared like the value itself).
+	Rendered string
+	Text     string // error text (never compared)
 	// Mutated is non-empty when the caller-owned binding maps differ after the
 	// query from what the caller put into them.
 	Mutated string
@@ -273,11 +299,11 @@ func (n Norm) Key(w *World) string {
 	}
 	switch n.Val.Type {
 	case "number":
-		return fmt.Sprintf("number:%016x", math.Float64bits(n.Val.Num))
+		return fmt.Sprintf("number:%016x:%s", math.Float64bits(n.Val.Num), n.Rendered)
 	case "string":
-		return "string:" + n.Val.Str
+		return "string:" + n.Val.Str + "\x00" + n.Rendered
 	case "bool":
-		return fmt.Sprintf("bool:%v", n.Val.Bool)
+		return fmt.Sprintf("bool:%v:%s", n.Val.Bool, n.Rendered)
 	}
 	var b strings.Builder
 	b.WriteString("nodeset:")
@@ -299,10 +325,17 @@ func (n Norm) Show(w *World) string {
 		return "error"
 	}
 	if n.Val.Type != "nodeset" {
+		vs := n.Val.String()
 		if n.Val.Type == "number" && math.IsNaN(n.Val.Num) {
-			return "number(NaN)"
+			vs = "number(NaN)"
 		}
-		return n.Val.String()
+		if n.Val.Type == "number" || n.Val.Type == "bool" {
+			return vs + fmt.Sprintf(" printed as %q", n.Rendered)
+		}
+		if n.Rendered != n.Val.Str {
+			return vs + fmt.Sprintf(" printed as %q", n.Rendered)
+		}
+		return vs
 	}
 	parts := []string{}
 	for _, r := range n.Val.Nodes {
